@@ -102,6 +102,19 @@ theorem exec_excInfo_restored (b : Body) (c : Sre) (s : St) : (exec b c s).st.ex
     · simp only []
       rw [lemma_rpoeExit_excInfo]; exact ih _ _
   | rwc x => rfl
+  | nestThen fl body late ihb ihl =>
+    simp only [exec]
+    split
+    · simp only []
+      rw [ihl, lemma_exitSre_excInfo]; exact ihb _ _
+    · simp only []
+      rw [lemma_exitSre_excInfo]; exact ihb _ _
+  | handleNestThen e fl body late ihb ihl =>
+    simp only [exec]
+    split
+    · simp only []
+      rw [ihl]
+    · rfl
 
 /-! ### the saved triple -/
 
@@ -143,6 +156,8 @@ theorem sre_saved_invariant (b : Body) (c : Sre) (s : St) (h : b.direct = false)
     · exact ih _ _ h
     · exact ih _ _ h
   | rwc x => simp [exec]
+  | nestThen fl body late _ _ => simp only [exec]; split <;> simp
+  | handleNestThen e fl body late _ _ => simp only [exec]; split <;> simp
 
 /-- a nested context never touches the enclosing one -/
 theorem sre_nest_leaves_outer (fl : Bool) (body : Body) (c : Sre) (s : St) :
@@ -296,6 +311,88 @@ theorem sre_force_then_exit_invents :
     n1Body.direct = false ∧ (Body.forceReraise true).forceCaught false = true := by
   decide
 
+/-! ### the context after its `with` block -/
+
+/-- **sre_exit_off_keeps_saved.**  `__exit__` leaves the four fields alone when the body raised and
+    when the body completed with the flag off (and in the latter case does nothing else either): the
+    saved type, value and traceback are still there for a later `ctxt.force_reraise()`. -/
+theorem sre_exit_off_keeps_saved (f : Frame) (c : Sre) (s : St) :
+    (∀ e, exitCtx c s (.raised e) = c) ∧
+    (c.reraise = false → exitCtx c s .ok = c ∧ exitSre f c s .ok = (s, .ok)) := by
+  refine ⟨fun e => rfl, fun h => ?_⟩
+  simp [exitCtx, exitSre, h]
+
+/-- a normal exit with the flag on (it re-raised the saved value) leaves the value and traceback
+    cleared and the type in place — the state from which finding N1 arises -/
+theorem sre_exit_on_clears_value (c : Sre) (s : St) (v : ExcId)
+    (hfl : c.reraise = true) (hv : c.value = some v) :
+    (exitCtx c s .ok).value = none ∧ (exitCtx c s .ok).tb = [] ∧ (exitCtx c s .ok).type_ = c.type_ := by
+  obtain ⟨rr, ty, val, tb⟩ := c
+  simp only at hfl hv
+  subst hfl hv
+  simp [exitCtx, force, raiseSaved]
+
+/-- for every body that completes with the flag off, the operations written after the `with` block
+    run on exactly the context (and state) the body left -/
+theorem sre_late_ops_see_saved (fl : Bool) (body late : Body) (c : Sre) (s : St)
+    (hok : (exec body (enter (Sre.init fl) s) s).out = .ok)
+    (hfl : (exec body (enter (Sre.init fl) s) s).ctx.reraise = false) :
+    exec (.nestThen fl body late) c s =
+      ⟨(exec late (exec body (enter (Sre.init fl) s) s).ctx (exec body (enter (Sre.init fl) s) s).st).st, c,
+       (exec late (exec body (enter (Sre.init fl) s) s).ctx (exec body (enter (Sre.init fl) s) s).st).out⟩ := by
+  simp [exec, exitSre, exitCtx, hok, hfl]
+
+/-- **sre_late_force_reraises_saved.**  For every body without direct `force_reraise`/`capture` that
+    completes with the flag off: a `ctxt.force_reraise()` written after the `with` block (still inside
+    the `except` clause) raises the exception that was handled on entry — the same object — with the
+    traceback it had when it was saved, under the frames force_reraise and scenario. -/
+theorem sre_late_force_reraises_saved (fl : Bool) (body : Body) (c : Sre) (s : St) (e₀ : ExcId)
+    (hact : s.active = some e₀) (hd : body.direct = false)
+    (hok : (exec body (enter (Sre.init fl) s) s).out = .ok)
+    (hfl : (exec body (enter (Sre.init fl) s) s).ctx.reraise = false) :
+    (exec (.nestThen fl body (.forceReraise false)) c s).out = .raised e₀ ∧
+    (exec (.nestThen fl body (.forceReraise false)) c s).st.heap.tb e₀ = [.scen, .sreForce] ++ s.heap.tb e₀ ∧
+    (exec (.nestThen fl body (.forceReraise false)) c s).ctx = c := by
+  have inv := sre_saved_invariant body (enter (Sre.init fl) s) s hd
+  rw [lemma_enter_active fl s e₀ hact] at inv
+  simp only at inv
+  rw [sre_late_ops_see_saved fl body _ c s hok hfl]
+  have key := sre_force_raises_saved false (exec body (enter (Sre.init fl) s) s).ctx
+    (exec body (enter (Sre.init fl) s) s).st e₀ (by rw [lemma_enter_active fl s e₀ hact]; exact inv.2.1)
+  rw [lemma_enter_active fl s e₀ hact] at key ⊢
+  rw [inv.2.2] at key
+  exact ⟨key.1, key.2.1, rfl⟩
+
+/-- … and the same after the whole `try` statement, when nothing is being handled any more: the
+    traceback is the one `e₀` had when it was caught. -/
+theorem sre_late_force_after_except (fl : Bool) (body : Body) (c : Sre) (s : St) (e₀ : ExcId)
+    (hd : body.direct = false)
+    (hok : (exec body (enter (Sre.init fl) { s.through e₀ .scen with excInfo := e₀ :: s.excInfo })
+        { s.through e₀ .scen with excInfo := e₀ :: s.excInfo }).out = .ok)
+    (hfl : (exec body (enter (Sre.init fl) { s.through e₀ .scen with excInfo := e₀ :: s.excInfo })
+        { s.through e₀ .scen with excInfo := e₀ :: s.excInfo }).ctx.reraise = false) :
+    (exec (.handleNestThen e₀ fl body (.forceReraise false)) c s).out = .raised e₀ ∧
+    (exec (.handleNestThen e₀ fl body (.forceReraise false)) c s).st.heap.tb e₀
+      = [.scen, .sreForce, .scen] ++ s.heap.tb e₀ ∧
+    (exec (.handleNestThen e₀ fl body (.forceReraise false)) c s).st.excInfo = s.excInfo := by
+  generalize hsh : ({ s.through e₀ .scen with excInfo := e₀ :: s.excInfo } : St) = sh at hok hfl
+  have hact : sh.active = some e₀ := by subst hsh; rfl
+  have htb : sh.heap.tb e₀ = .scen :: s.heap.tb e₀ := by
+    subst hsh; simp [St.through, Heap.through, Heap.setTb]
+  have inv := sre_saved_invariant body (enter (Sre.init fl) sh) sh hd
+  have hen := lemma_enter_active fl sh e₀ hact
+  have hv : (exec body (enter (Sre.init fl) sh) sh).ctx.value = some e₀ := by rw [inv.2.1, hen]
+  have ht : (exec body (enter (Sre.init fl) sh) sh).ctx.tb = .scen :: s.heap.tb e₀ := by
+    rw [inv.2.2, hen]; exact htb
+  have hs1 : (s.through e₀ .scen).excInfo = s.excInfo := rfl
+  have key := sre_force_raises_saved false (exec body (enter (Sre.init fl) sh) sh).ctx
+    { (exec body (enter (Sre.init fl) sh) sh).st with excInfo := s.excInfo } e₀ hv
+  have hex := exec_excInfo_restored (.forceReraise false) (exec body (enter (Sre.init fl) sh) sh).ctx
+    { (exec body (enter (Sre.init fl) sh) sh).st with excInfo := s.excInfo }
+  rw [ht] at key
+  simp only [exec, hs1, hsh, exitSre, exitCtx, hok, hfl] at key hex ⊢
+  exact ⟨key.1, key.2.1, hex⟩
+
 /-! ### outside the class of N1 nothing is invented -/
 
 /-- a context is *sound* when a cleared value comes with a cleared type (true of a new context, after
@@ -309,6 +406,8 @@ def Body.n1Free : Body → Bool
   | .handle _ h => h.n1Free
   | .filterCtx _ _ b => b.n1Free
   | .rpoe _ b => b.n1Free
+  | .nestThen _ b l => !(b.forceCaught false) && b.n1Free && !(l.forceCaught false) && l.n1Free
+  | .handleNestThen _ _ b l => !(b.forceCaught false) && b.n1Free && !(l.forceCaught false) && l.n1Free
   | _ => true
 
 /-- `h'` has every object of `h` with its class, and the objects created in between are only the
@@ -448,6 +547,22 @@ theorem lemma_filterCall_ext (fl : Filter) (e : ExcId) (s : St) :
     · exact lemma_ext_same _ _ rfl rfl
   · exact lemma_ext_same _ _ rfl rfl
 
+/-- what `__exit__` does to the heap and, when it returns normally, to the context -/
+theorem lemma_exit_full (f : Frame) (c : Sre) (s : St) (o : Compl)
+    (hc : o = .ok → c.sound) :
+    Heap.ext s.heap (exitSre f c s o).1.heap ∧ ((exitSre f c s o).2 = .ok → (exitCtx c s o).sound) := by
+  cases o with
+  | raised e =>
+    refine ⟨?_, fun h => ?_⟩
+    · simp only [exitSre]; split <;> exact lemma_ext_same _ _ rfl rfl
+    · simp [exitSre] at h
+  | ok =>
+    have hs := hc rfl
+    refine ⟨lemma_exitSre_ext f c s .ok hs, fun h => ?_⟩
+    by_cases hr : c.reraise = true
+    · simp [exitSre, hr] at h
+    · simpa [exitCtx, hr] using hs
+
 theorem lemma_no_invention (b : Body) : ∀ (uf : Bool) (c : Sre) (s : St),
     b.forceCaught uf = false → b.n1Free = true → c.sound →
     Heap.ext s.heap (exec b c s).st.heap ∧
@@ -552,6 +667,50 @@ theorem lemma_no_invention (b : Body) : ∀ (uf : Bool) (c : Sre) (s : St),
       | none => s.active) = cz
     exact ⟨lemma_ext_trans (lemma_ext_fresh s .caused cz .rwc (Or.inr (Or.inr rfl)))
       (lemma_ext_same _ _ rfl rfl), fun _ => hc⟩
+  | nestThen fl body late ihb ihl =>
+    intro uf c s _ hn hc
+    simp only [Body.n1Free, Bool.and_eq_true, Bool.not_eq_true'] at hn
+    obtain ⟨⟨⟨hb1, hb2⟩, hl1⟩, hl2⟩ := hn
+    have h := ihb false (enter (Sre.init fl) s) s hb1 hb2 (lemma_enter_sound fl s)
+    simp only [exec]
+    have hx := lemma_exit_full .scen (exec body (enter (Sre.init fl) s) s).ctx
+      (exec body (enter (Sre.init fl) s) s).st (exec body (enter (Sre.init fl) s) s).out
+      (fun ho => h.2 (Or.inr ho))
+    cases ho : (exitSre .scen (exec body (enter (Sre.init fl) s) s).ctx
+        (exec body (enter (Sre.init fl) s) s).st (exec body (enter (Sre.init fl) s) s).out).2 with
+    | raised x =>
+      simp only
+      exact ⟨lemma_ext_trans h.1 hx.1, fun _ => hc⟩
+    | ok =>
+      simp only
+      have hl := ihl false _ (exitSre .scen (exec body (enter (Sre.init fl) s) s).ctx
+        (exec body (enter (Sre.init fl) s) s).st (exec body (enter (Sre.init fl) s) s).out).1
+        hl1 hl2 (hx.2 ho)
+      exact ⟨lemma_ext_trans h.1 (lemma_ext_trans hx.1 hl.1), fun _ => hc⟩
+  | handleNestThen e fl body late ihb ihl =>
+    intro uf c s _ hn hc
+    simp only [Body.n1Free, Bool.and_eq_true, Bool.not_eq_true'] at hn
+    obtain ⟨⟨⟨hb1, hb2⟩, hl1⟩, hl2⟩ := hn
+    generalize hsh : ({ s.through e .scen with excInfo := e :: (s.through e .scen).excInfo } : St) = sh
+    have h0 : Heap.ext s.heap sh.heap := by subst hsh; exact lemma_ext_same _ _ rfl rfl
+    have h := ihb false (enter (Sre.init fl) sh) sh hb1 hb2 (lemma_enter_sound fl sh)
+    simp only [exec, hsh]
+    have hx := lemma_exit_full .scen (exec body (enter (Sre.init fl) sh) sh).ctx
+      (exec body (enter (Sre.init fl) sh) sh).st (exec body (enter (Sre.init fl) sh) sh).out
+      (fun ho => h.2 (Or.inr ho))
+    cases ho : (exitSre .scen (exec body (enter (Sre.init fl) sh) sh).ctx
+        (exec body (enter (Sre.init fl) sh) sh).st (exec body (enter (Sre.init fl) sh) sh).out).2 with
+    | raised x =>
+      simp only
+      exact ⟨lemma_ext_trans h0 (lemma_ext_trans h.1 (lemma_ext_trans hx.1 (lemma_ext_same _ _ rfl rfl))),
+        fun _ => hc⟩
+    | ok =>
+      simp only
+      have hl := ihl false _ { (exitSre .scen (exec body (enter (Sre.init fl) sh) sh).ctx
+        (exec body (enter (Sre.init fl) sh) sh).st (exec body (enter (Sre.init fl) sh) sh).out).1 with
+          excInfo := s.excInfo } hl1 hl2 (hx.2 ho)
+      exact ⟨lemma_ext_trans h0 (lemma_ext_trans h.1 (lemma_ext_trans hx.1
+        (lemma_ext_trans (lemma_ext_same _ _ rfl rfl) hl.1))), fun _ => hc⟩
 
 /-- **Nothing is invented outside the class of N1.**  For every program in which no
     `save_and_reraise_exception` body (at any nesting depth) contains a direct `force_reraise()` whose
@@ -757,6 +916,22 @@ example :
     (run true (.handle 0 (.nest true (.handle 1 .capture))) demoState).out = .raised 1 ∧
     (run true (.handle 0 (.nest true (.handle 1 .capture))) demoState).st.heap.tb 1
       = [.scen, .sreExit, .sreForce, .scen] := by
+  decide
+
+-- sre_late_ops_see_saved / sre_late_force_reraises_saved / sre_late_force_after_except: the body re-raises
+-- E0 and switches the flag off; the late force_reraise() gives E0 with the traceback saved at entry
+example :
+    (exec (.seq (.raiseCatch 0) (.setReraise false)) (enter (Sre.init true) demoHandling) demoHandling).out = .ok ∧
+    (exec (.seq (.raiseCatch 0) (.setReraise false)) (enter (Sre.init true) demoHandling) demoHandling).ctx.reraise
+      = false ∧
+    (exec (.nestThen true (.seq (.raiseCatch 0) (.setReraise false)) (.forceReraise false)) (Sre.init true)
+      demoHandling).out = .raised 0 ∧
+    (exec (.nestThen true (.seq (.raiseCatch 0) (.setReraise false)) (.forceReraise false)) (Sre.init true)
+      demoHandling).st.heap.tb 0 = [.scen, .sreForce, .scen, .prior 1, .prior 0] ∧
+    (run true (.handleNestThen 0 false .nop (.forceReraise false)) demoState).out = .raised 0 ∧
+    (run true (.handleNestThen 0 false .nop (.forceReraise false)) demoState).st.heap.tb 0
+      = [.scen, .sreForce, .scen, .prior 1, .prior 0] ∧
+    (run true (.handleNestThen 0 false .nop .capture) demoState).out = .raised 3 := by
   decide
 
 -- sre_capture_nothing_active / sre_force_raises_saved
